@@ -13,9 +13,9 @@ Open Scope Z_scope.
 
 Definition define_fn := obj -> key -> desc -> bool -> obj * dres.
 (* otto's clamps / the ES5 clamps around one and the same [[DefineOwnProperty]] *)
-Definition with_otto_clamps (df : define_fn) (ts cf : bool) : dialect := mkDia df otto_rel otto_cnt otto_indexof otto_lastindexof ts cf.
-Definition with_es5_clamps (df : define_fn) (ts cf : bool) : dialect :=
-  mkDia df (dia_rel es5) (dia_cnt es5) (dia_indexof es5) (dia_lastindexof es5) ts cf.
+Definition with_otto_clamps (df : define_fn) : dialect := mkDia df otto_rel otto_cnt otto_indexof otto_lastindexof.
+Definition with_es5_clamps (df : define_fn) : dialect :=
+  mkDia df (dia_rel es5) (dia_cnt es5) (dia_indexof es5) (dia_lastindexof es5).
 
 Lemma bind_ext : forall A B (m : M A) (f g : A -> M B),
   (forall a s, f a s = g a s) -> forall s, bind m f s = bind m g s.
@@ -49,9 +49,8 @@ Qed.
 
 Section Clamps.
 Variable df : define_fn.
-Variables ts cf : bool.
-Let D1 := with_otto_clamps df ts cf.
-Let D2 := with_es5_clamps df ts cf.
+Let D1 := with_otto_clamps df.
+Let D2 := with_es5_clamps df.
 
 Theorem slice_clamps : forall args s, m_slice D1 args s = m_slice D2 args s.
 Proof.
@@ -105,7 +104,7 @@ Theorem other_methods_clamps :
   m_shift D1 = m_shift D2 /\ m_unshift D1 = m_unshift D2 /\ m_every D1 = m_every D2 /\ m_some D1 = m_some D2 /\
   m_foreach D1 = m_foreach D2 /\ m_map D1 = m_map D2 /\ m_filter D1 = m_filter D2 /\
   m_reduce D1 = m_reduce D2 /\ m_reduceright D1 = m_reduceright D2 /\ m_concat = m_concat /\
-  m_tostring D1 = m_tostring D2 /\ m_tolocalestring = m_tolocalestring.
+  m_tostring = m_tostring /\ m_tolocalestring = m_tolocalestring.
 Proof. repeat split. Qed.
 
 (* every method of the table *)
